@@ -482,8 +482,12 @@ class RunBundler:
             self.emit_sync(DocumentNames.event, doc)
 
     def rewind(self):
+        # Interruption records are never replayed, so they keep their numbering.
+        interruptions_counter = self._sequence_counters.get("interruptions")
         self._sequence_counters.clear()
         self._sequence_counters.update(self._sequence_counters_copy)
+        if interruptions_counter is not None:
+            self._sequence_counters["interruptions"] = interruptions_counter
         # make sure we do not forget about streams we roll back to the
         # very beginning of
         for desc_key in self._descriptor_objs:
